@@ -4,7 +4,8 @@ tsv/csv/Parquet files) and mokapot.streaming.MergedTabularDataReader / merge_rea
 A case is a list of inputs, each a list of rows [score image, row id] (what the model sees), plus a description of
 how these rows exist physically (`phys`): column names and order, row labels of the frames, missing payload values,
 the class of the score values, the kind of reader that delivers them, optional arguments of the call, how often / in
-which order the call is made.  The model knows nothing of the physical side: every physical variation has to leave the
+which order the call is made, and (phys.text) how the numbers of a text input are PRINTED (`7` or `7.0`, `+7`, `007`,
+`3e2`), which decides the column types a chunk-wise reader infers.  The model knows nothing of the physical side: every physical variation has to leave the
 result (as a sequence of [image, id]) what the model computes, and every returned row has to be, field by field, the
 row that was written."""
 import atexit
@@ -12,9 +13,11 @@ import copy
 import itertools
 import json
 import math
+import re
 import shutil
 import struct
 import tempfile
+import zlib
 from fractions import Fraction
 from pathlib import Path
 
@@ -43,7 +46,20 @@ RULE = ("cases: (1) exhaustive: every way to put <=5 (quick) / <=7 (thorough) ro
         "consumed alternately; DataFrame inputs are checked to be untouched afterwards; (5) malformed variants of (4) "
         "(inversion between values that differ by one unit in the last place / by 1 above 2^53, wrong direction); "
         "(6) inputs longer than the DEFAULT chunk sizes (MERGE_SORT_CHUNK_SIZE = 20000 rows, reader_chunk_size = 1000 rows) "
-        "with the defaults left alone. "
+        "with the defaults left alone; "
+        "(7) text inputs as OTHER tools write them (round 4): tab-separated files written cell by cell, numbers printed "
+        "without '.0' on whole values (7, 4.75), with a leading '+', with leading zeros (007), with exponents (3e2, 1e+05, "
+        "475e-2), as pandas prints them, or a mixture per cell; the score column of every input has a whole-numbered head and "
+        "a fractional tail / the other way round / is whole-numbered or fractional throughout / mixed (merge_sort: an own "
+        "pattern per file), a float payload column has runs of whole values, a string payload column looks like an "
+        "integer column or is empty in the first rows; crossed with reader chunk sizes 1, 2, h-1, h, h+1, n, n+1 around "
+        "the row h where the kind of number changes, ascending and descending, every way of reading the table merger and "
+        "utils.merge_sort with a patched-down MERGE_SORT_CHUNK_SIZE, plus inputs that stay whole-numbered up to the end "
+        "of the first DEFAULT-sized chunk (20000 rows for merge_sort, 1000 rows for the table merger) and turn fractional "
+        "after it; one inversion / the wrong direction on these files (malformed variants). Cells of these text files "
+        "are compared by NUMERIC VALUE (the integer 7 and the float 7.0 are both the cell `7`; 4 is not 4.75); a text "
+        "case of the table merger whose files start with different kinds of numbers in the first two rows is a known "
+        "finding (the constructor rejects it), about 5 % of the table cases of (7) are of that kind on purpose. "
         "Rows carry a unique id and payload columns; every returned row is compared field by field (value, type, "
         "missingness, key order) with the row written, and full row sequences (including order among ties) are "
         "compared with the model. distinct = distinct (entry, configuration, inputs); non-trivial = >=2 inputs and (a score shared by "
@@ -65,10 +81,22 @@ ASSUMPTIONS = [
     "a MergedTabularDataReader used as INPUT of another one is only generated with sorted inputs (the inner merger "
     "pre-fetches, so the rows yielded before a rejection differ from the flat model)",
     "MOKAPOT_MERGE_SORT_CHUNK_SIZE is read at import time; the chunk size is varied through the module attribute instead",
+    "a cell of a TEXT input has no type: pandas infers the column types chunk by chunk, so the same cell `7` of a float "
+    "column comes back as the integer 7 in one chunking and as the float 7.0 in another, and `1001` of a string column "
+    "as 1001, 1001.0 or '1001'. In stream (7) 'unmodified' therefore means: the returned value is a number that is "
+    "EXACTLY equal (Python int/float comparison, no rounding) to the number printed in the file - 4 for `4.75` is a "
+    "violation - or, for a string cell, the same string or (if it is all digits) that integer; ids and the 2^53+odd "
+    "integer column must come back as Python ints in every chunking. Streams (1)-(6) (files written by "
+    "DataFrame.to_csv, which prints 7.0) keep the strict comparison of value AND type. Scores of stream (7) are "
+    "multiples of 0.25 below 2^33, exact as int64 and as float64 alike",
+    "which column types a reader reports for a text file (CSVFileReader.get_column_types looks at two rows) is not "
+    "part of the property; that the table merger refuses to merge text files whose first two rows look like different "
+    "types IS held against it: known finding table:text-column-types-from-first-two-rows",
 ]
 TRUSTED_EXTRA = ["pandas / pyarrow (de)serialisation of the generated tables (rows are checked field by field against "
                  "what was written: id, score, payload columns; special float values were chosen to survive pandas' "
-                 "text round trip, which is verified when a file is written)"]
+                 "text round trip, which is verified when a file is written; every hand-written text file of stream (7) "
+                 "is read back in one piece with pandas.read_csv and compared with the numbers that were meant)"]
 
 SCALE = 4
 COLS = ["id", "score", "tag", "aux"]
@@ -77,6 +105,12 @@ VIAS = ["rows-Dicts", "read", "chunked", "merge_readers", "rows-DataFrame", "row
 STREAM_VIAS = ("merge_readers", "rows-Dicts", "rows-DataFrame", "rows-Records")
 BIG = 2 ** 53 + 1
 KEY_FLOAT = "merge_sort:int-scores-compared-as-float"
+KEY_HDR = "table:text-column-types-from-first-two-rows"
+# how a number is printed in a text input that was NOT written by DataFrame.to_csv (phys.text.style):
+#   g      7 / 4.75 (printf %g, awk, R, ...: no ".0" on whole numbers)     plus   +7 / +4.75
+#   zeros  007 / 004.75                                                    exp    3e2 / 1e+05 / 475e-2 (7 stays 7)
+#   pandas 7.0 / 4.75 (what to_csv prints)                                 mix    one of the five per cell
+TEXT_STYLES = ["g", "plus", "zeros", "exp", "pandas"]
 
 NAME_POOL = {
     "id": ["id", "SpecId", "spec id", "index", "level_0", "0"],
@@ -198,9 +232,32 @@ def _nullable_big(c):
     return bool(_ph(c, "nulls")) and c["fn"] == "merge_sort" and c.get("fmt") == "parquet" and _layout(c) == "numeric"
 
 
+def _text(c):
+    """phys.text: the input files are text files whose numbers are printed as other tools print them"""
+    return _ph(c, "text")
+
+
 def _payload(c, logical, i):
     p = i % _idb(c)
     nulls = bool(_ph(c, "nulls"))
+    tx = _text(c)
+    if tx and logical == "tag":
+        # a string column that looks like an integer column / is empty in the first rows of every file
+        if nulls and p % 4 == 3:
+            return None
+        if tx["tag"] == "int-head" and p < int(tx["q"]):
+            return str(i + 1)
+        if tx["tag"] == "empty-head" and p < int(tx["q"]):
+            return None
+        return f"r{i}"
+    if tx and logical == "aux":
+        # a float column with runs of whole numbers: printed without ".0" these rows look like integers
+        if nulls and p % 3 == 2:
+            return None
+        if tx["aux"] == "empty-head" and p < int(tx["q"]):
+            return None
+        frac = (p % 4 == 0) if tx["aux"] == "frac-first" else (p % 4 == 3)
+        return float(i) + (0.25 if frac else 0.0)
     if logical == "tag":
         return None if nulls and p % 4 == 3 else f"r{i}"
     if logical == "aux":
@@ -261,12 +318,114 @@ def _build_df(c, j, rows):
     return df
 
 
-def _write(key, df, fmt, suffix, rg, null_big=None, check_floats=None):
+def _num_text(v, style, salt):
+    """a finite float printed in one of TEXT_STYLES; every form parses back to exactly v (verified when written)"""
+    v = float(v)
+    if style == "mix":
+        style = TEXT_STYLES[salt % len(TEXT_STYLES)]
+    if style == "pandas":
+        return repr(v)
+    whole = v == int(v)
+    body = str(int(v)) if whole else repr(v)
+    if "e" in body or "n" in body:
+        raise RuntimeError(f"harness: {v!r} is outside the range of the text styles")
+    if style == "plus":
+        return "+" + body if v > 0 else body
+    if style == "zeros":
+        return ("-00" + body[1:]) if body.startswith("-") else "00" + body
+    if style == "exp":
+        if whole and v != 0 and int(v) % 10 == 0:
+            m, e = int(v), 0
+            while m % 10 == 0:
+                m, e = m // 10, e + 1
+            return f"{m}e+{e:02d}" if salt % 2 else f"{m}e{e}"
+        if not whole and v * 100 == int(v * 100):
+            return f"{int(v * 100)}e-2"
+    return body
+
+
+def _cell_kind(t):
+    """what a cell of a text file looks like to a type-inferring reader"""
+    if t == "":
+        return "e"
+    if re.fullmatch(r"[+-]?[0-9]+", t):
+        return "i"
+    try:
+        float(t)
+        return "f"
+    except ValueError:
+        return "s"
+
+
+def _col_kind(kinds):
+    """the column type pandas infers for cells of these kinds: i(nt64) / f(loat64) / s(tr)"""
+    if "s" in kinds:
+        return "s"
+    if "f" in kinds or "e" in kinds:
+        return "f"
+    return "i"
+
+
+def _styled_cells(df, style):
+    """DataFrame -> (column names, rows of cell texts): float columns in `style`, missing cells empty"""
+    names = [str(x) for x in df.columns]
+    cols = []
+    for name in names:
+        col = df[name]
+        salt0 = zlib.crc32((name[4:] if name.startswith("src ") else name).encode())
+        vals = col.tolist()
+        if str(col.dtype) == "float64":
+            cols.append(["" if v != v else _num_text(v, style, salt0 + 7 * q) for q, v in enumerate(vals)])
+        elif str(col.dtype) == "int64":
+            cols.append([str(int(v)) for v in vals])
+        else:
+            cols.append(["" if _missing(v) else str(v) for v in vals])
+    return names, [list(r) for r in zip(*cols)] if cols else []
+
+
+def _write_styled(p, df, style):
+    import pandas as pd
+    names, rows = _styled_cells(df, style)
+    for t in names + [x for r in rows for x in r]:
+        if "\t" in t or "\n" in t or '"' in t:
+            raise RuntimeError(f"harness: cell {t!r} needs quoting")
+    with open(p, "w") as f:
+        f.write("\t".join(names) + "\n")
+        for r in rows:
+            f.write("\t".join(r) + "\n")
+    # the file read in ONE piece holds what was meant (the text forms are exact)
+    back = pd.read_csv(p, sep="\t", index_col=False)
+    if [str(x) for x in back.columns] != names or len(back) != len(df):
+        raise RuntimeError(f"harness: styled text file {p} does not read back: {list(back.columns)} / {len(back)} rows")
+    for name in names:
+        if str(df[name].dtype) in ("float64", "int64"):
+            a, b = df[name].tolist(), back[name].tolist()
+            if any(not ((x != x and y != y) or x == y) for x, y in zip(a, b)):
+                raise RuntimeError(f"harness: column {name} of a styled text file does not read back exactly")
+
+
+def _header_sig(c, j, rows):
+    """the column types a reader infers from the first two rows of text input j (what CSVFileReader.get_column_types
+    does), as a string of i / f / s per column"""
+    df = _build_df(c, j, rows[:2])
+    _, cells = _styled_cells(df, _text(c)["style"])
+    return "".join(_col_kind([_cell_kind(r[q]) for r in cells]) for q in range(len(df.columns)))
+
+
+def _header_sigs(c):
+    return [_header_sig(c, j, rows) for j, rows in enumerate(c["inputs"]) if rows]
+
+
+def _write(key, df, fmt, suffix, rg, null_big=None, check_floats=None, style=None):
     """a (cached) real file; fmt: text (tab separated, as mokapot reads and writes) / parquet"""
     p = _FILES.get(key)
     if p is not None:
         return p
     p = Path(_tmpdir()) / f"f{len(_FILES)}{suffix}"
+    if style and fmt != "parquet":
+        _write_styled(p, df, style)
+        _FILES[key] = p
+        return p
     if fmt == "parquet":
         kw = {} if not rg else {"row_group_size": int(rg)}
         if null_big:
@@ -309,8 +468,8 @@ def _file_of_input(c, j, rows, df=None, fmt=None):
         cf = [sn, df[sn].tolist()]
     key = lib.stable_hash([kind, suffix, c.get("rg") if kind == "parquet" else None, [str(x) for x in df.columns],
                            [str(t) for t in df.dtypes], [[int(a), int(b)] for a, b in rows], _ph(c, "sclass"),
-                           _in_dtype(c, j), bool(_ph(c, "nulls")), _idb(c), nb])
-    return _write(key, df, kind, suffix, c.get("rg"), nb, cf)
+                           _in_dtype(c, j), bool(_ph(c, "nulls")), _idb(c), nb, _text(c)])
+    return _write(key, df, kind, suffix, c.get("rg"), nb, cf, style=(_text(c) or {}).get("style"))
 
 
 # ----------------------------------------------------------------------------- checking returned rows
@@ -330,10 +489,22 @@ def _missing(v):
     return isinstance(v, float) and v != v
 
 
-def _same_value(exp, got):
+def _is_number(v):
+    return isinstance(v, (int, float)) and not isinstance(v, bool)
+
+
+def _same_value(exp, got, text=False):
+    """text=False: same value AND same Python type.  text=True (inputs are text files with numbers printed as other
+    tools print them; a reader that infers types chunk by chunk may return the integer 7 for the cell `7` and the float
+    7.0 for the same cell in another chunking): a float cell is compared by its numeric value (exactly: Python compares
+    int with float without rounding), a string cell that looks like an integer may come back as that number"""
     got = _py(got)
     if exp is None:
         return _missing(got)
+    if text and isinstance(exp, float):
+        return _is_number(got) and got == exp
+    if text and isinstance(exp, str) and re.fullmatch(r"[1-9][0-9]*", exp) and _is_number(got):
+        return got == int(exp)
     if isinstance(exp, str):
         return isinstance(got, str) and got == exp
     if isinstance(exp, bool):
@@ -351,6 +522,7 @@ class _Expect:
     def __init__(self, c, projected=True):
         self.c = c
         self.rows = _expected(c)
+        self.text = bool(_text(c))
         self.idn = _pname(c, "id")
         cols = _ph(c, "columns") if projected else None
         self.proj = list(cols) if cols else None
@@ -377,7 +549,7 @@ class _Expect:
             raise Modified(f"columns {keys} instead of {self.names(j)}")
         for l in self.logical(j):
             got = d[_pname(self.c, l)]
-            if not _same_value(vals[l], got):
+            if not _same_value(vals[l], got, self.text):
                 raise Modified(f"column {l} of row {i}: {_py(got)!r} ({type(_py(got)).__name__}) instead of {vals[l]!r}")
         return [k, i]
 
@@ -386,7 +558,7 @@ class _Expect:
             raise Modified(f"columns {list(df.columns)} instead of {self.names(0)}")
         if list(df.index) != list(range(len(df))):
             raise Modified(f"index {list(df.index)}")
-        if check_dtypes and len(df):
+        if check_dtypes and len(df) and not self.text:     # text inputs: dtypes follow the reader's chunks; values are checked
             want = {"id": "int64", "score": "int64" if _score_is_int(self.c, 0) else "float64"}
             if not _ph(self.c, "nulls"):
                 want.update({"aux": "float64", "big": "int64"})
@@ -747,6 +919,12 @@ def oracle(c, i):
 def finding_key(c, m, i):
     """utils.get_next_row compares float(score): integer scores >= 2^53 that differ by less than the float spacing
     are ties for the code.  Only when the output is a correct merge for the float images."""
+    if c["fn"] == "table" and _text(c) and i is not None:
+        # the constructor of MergedTabularDataReader compares the column types that each CSVFileReader infers from the
+        # first TWO rows of its file: only when these really differ among the inputs, and the error is that assertion
+        i = lib.jsonable(i)
+        rejected = i in (["err", "AssertionError"], [[], "AssertionError"])
+        return KEY_HDR if rejected and c["inputs"] and all(c["inputs"]) and len(set(_header_sigs(c))) > 1 else None
     if c["fn"] != "merge_sort" or _ph(c, "sclass") != "hugeint" or i is None:
         return None
     i = lib.jsonable(i)
@@ -845,6 +1023,9 @@ def _phys_tags(ph):
         t.append("mixed-int-float-inputs")
     if ph.get("rot"):
         t.append("per-file-column-order")
+    tx = ph.get("text")
+    if tx:
+        t += ["text-typed", f"text-style={tx['style']}", f"text-tag={tx['tag']}", f"text-aux={tx['aux']}"]
     return t
 
 
@@ -976,9 +1157,9 @@ def _gen_physical(ctx, n_cases):
     return out
 
 
-def _gen_physical_malformed(ctx, base_cases, n_cases):
+def _gen_physical_malformed(ctx, base_cases, n_cases, label="physical-malformed", tag="physical"):
     """(5): an inversion between neighbouring values / the wrong declared direction, physical side as in (4)"""
-    rng = ctx.sub("physical-malformed")
+    rng = ctx.sub(label)
     out = []
     for n in range(n_cases):
         b = base_cases[rng.randrange(len(base_cases))]
@@ -1003,11 +1184,150 @@ def _gen_physical_malformed(ctx, base_cases, n_cases):
                         r[0] = k
         if c["fn"] == "table":
             m = _mk_table(ins, c["desc"], c["via"], c["rchunk"], c["ochunk"], c["dtype"], c["backing"], c["rg"],
-                          extra=["physical", "malformed", kind], phys=ph)
+                          extra=[tag, "malformed", kind] + _hdr_tag(dict(c, inputs=ins, phys=ph)), phys=ph)
         else:
-            m = _mk_ms(ins, c["fmt"], c["rchunk"], c["dtype"], c["rg"], extra=["physical", "malformed", kind], phys=ph,
+            m = _mk_ms(ins, c["fmt"], c["rchunk"], c["dtype"], c["rg"], extra=[tag, "malformed", kind], phys=ph,
                        layout=c["layout"])
         out.append(m)
+    return out
+
+
+# --- (7) text inputs whose numbers are printed as other tools print them: per-chunk type inference of the readers
+def _seg_images(rng, kind, side, m, c0, pool, unit):
+    """m score images (value * 4) of one kind (whole / frac / any) above (side=+1) or below (side=-1) the value unit*c0;
+    whole images of both sides include unit*c0 itself, so whole heads and whole tails can tie"""
+    out = []
+    for _ in range(m):
+        k = kind if kind != "any" else ("whole" if rng.random() < 0.5 else "frac")
+        if k == "whole":
+            out.append(SCALE * unit * (c0 + side * rng.randint(0, pool)))
+        elif side > 0:
+            out.append(SCALE * unit * c0 + SCALE * rng.randrange(unit * pool) + rng.choice([1, 2, 3]))
+        else:
+            out.append(SCALE * unit * c0 - SCALE * (1 + rng.randrange(unit * pool)) + rng.choice([1, 2, 3]))
+    return out
+
+
+SPATS = {"whole-head": ("whole", "frac"), "frac-head": ("frac", "whole"), "whole": ("whole", "whole"),
+         "frac": ("frac", "frac"), "mixed": ("any", "any")}
+
+
+def _text_input(rng, spat, h, t, desc, c0, pool, unit):
+    """one sorted input: h rows of the first kind of the pattern, then t rows of the second kind"""
+    k1, k2 = SPATS[spat]
+    first = sorted(_seg_images(rng, k1, 1 if desc else -1, h, c0, pool, unit), reverse=desc)
+    second = sorted(_seg_images(rng, k2, -1 if desc else 1, t, c0, pool, unit), reverse=desc)
+    return first + second
+
+
+def _hdr_tag(c):
+    if c["fn"] == "table" and _text(c) and c["inputs"] and all(c["inputs"]):
+        return ["text-header-types=" + ("differ" if len(set(_header_sigs(c))) > 1 else "same")]
+    return []
+
+
+def _gen_text_typed(ctx, n_cases):
+    """(7): sorted text inputs with a whole-numbered head and a fractional tail of the score column (the other way
+    round / whole throughout / fractional throughout / mixed), numbers printed without '.0' (and with '+', leading
+    zeros, exponents), crossed with reader chunk sizes around the row where the kind of number changes"""
+    rng = ctx.sub("text-typed")
+    big = ctx.thorough
+    out = []
+    for n in range(n_cases):
+        is_table = n % 2 == 0
+        k = rng.choice([1, 2, 2, 3, 3, 4])
+        desc = rng.random() < 0.5
+        h0 = rng.choice([1, 2, 2, 3, 4, 6] + ([10, 25] if big else []))
+        t0 = rng.choice([1, 2, 3, 5] + ([12] if big else []))
+        spat0 = rng.choice(["whole-head"] * 5 + ["frac-head"] * 3 + ["whole", "whole", "frac", "mixed"])
+        style = rng.choice(["g", "g", "g", "g", "plus", "zeros", "exp", "mix"])
+        unit = 10 if style in ("exp", "mix") and rng.random() < 0.7 else 1     # whole scores that end in 0: 3e2
+        c0 = rng.choice([0, 3, 10, -4, 10 ** 6, 10 ** 9])
+        pool = rng.choice([1, 2, 3, 6, 40])
+        differ = is_table and k > 1 and rng.random() < 0.05     # table merger: see known finding KEY_HDR
+        free = differ or not is_table                     # merge_sort does not look at column types
+        tx = {"style": style, "tag": rng.choice(["str", "str", "int-head", "empty-head"]),
+              "aux": rng.choice(["frac-first", "whole-first", "whole-first", "empty-head"]), "q": rng.choice([2, 3, max(2, h0)])}
+        ph = {"idb": 1000, "sclass": None, "nulls": rng.random() < 0.3, "text": tx,
+              "repeat": rng.choice(["none", "none", "none", "twice", "interleaved"])}
+        rchunk = max(1, rng.choice([1, 2, h0 - 1, h0, h0, h0 + 1, h0 + t0, h0 + t0 + 1]))
+        suffix = rng.choice(TEXT_SUFFIXES)
+        if is_table:
+            via = VIAS[(n // 2) % 6]
+            wrap = rng.choice(["none"] * 4 + ["mapped", "nested"])
+            if wrap == "nested" and k < 2:
+                wrap = "none"
+            order = list(COLS)
+            rng.shuffle(order)
+            cols = None
+            if via != "merge_readers" and rng.random() < 0.3:
+                cols = ["id", "score"] + [l for l in COLS if l not in ("id", "score") and rng.random() < 0.5]
+                rng.shuffle(cols)
+            ph.update({"names": _random_names(rng, COLS) if rng.random() < 0.5 else {}, "order": order, "index": "range",
+                       "wrap": wrap, "columns": cols, "defaults": ["desc"] if desc and rng.random() < 0.2 else [],
+                       "suffix": suffix})
+        else:
+            layout = rng.choice(["mixed", "mixed", "numeric"])
+            logical = COLS if layout == "mixed" else NCOLS
+            order = list(logical)
+            rng.shuffle(order)
+            ph.update({"names": _random_names(rng, logical) if rng.random() < 0.5 else {}, "order": order,
+                       "rot": rng.random() < 0.3, "suffix": suffix})
+        for attempt in range(40):
+            shape = []
+            for j in range(k):
+                spat = rng.choice(list(SPATS)) if free and rng.random() < 0.5 else spat0
+                if rng.random() < 0.15:
+                    h, t = 1, 0                                            # single-row input
+                else:
+                    h = max(2 if (is_table and not differ) else 1, h0 + rng.choice([-1, 0, 0, 0, 1]))
+                    t = max(1, t0 + rng.choice([-1, 0, 0, 1]))
+                shape.append(_text_input(rng, spat, h, t, desc or not is_table, c0, pool, unit))
+            ins = _with_ids(shape, 1000)
+            if is_table:
+                tot = sum(len(x) for x in shape)
+                c = _mk_table(ins, desc, via, rchunk, ochunk=rng.choice([1, 2, tot, tot + 1, rng.randint(1, tot + 1)]),
+                              dtype="float", backing="tsv", extra=["text-typed-stream", f"spat={spat0}"], phys=ph)
+                same_hdr = len(set(_header_sigs(c))) == 1
+                if same_hdr == differ:
+                    continue                     # draw the rows again until the header types are as intended
+                c["tags"] += _hdr_tag(c)
+            else:
+                c = _mk_ms(ins, rng.choice(["tsv", "csv"]), rchunk, dtype="float", extra=["text-typed-stream", f"spat={spat0}"],
+                           phys=ph, layout=layout)
+            c["tags"].append("rchunk<longest-input" if rchunk < max(len(x) for x in shape) else "rchunk>=longest-input")
+            out.append(c)
+            break
+    return out
+
+
+def _gen_text_default_chunks(ctx):
+    """(7b): text inputs as in (7) that are longer than the DEFAULT chunk sizes, whole-numbered up to the end of the
+    first default-sized chunk"""
+    rng = ctx.sub("text-default-chunks")
+    out = []
+    tx = {"style": "g", "tag": "str", "aux": "whole-first", "q": 2}
+
+    def ph(**kw):
+        return dict({"idb": 10 ** 6, "sclass": None, "nulls": False, "text": dict(tx), "suffix": ".tsv"}, **kw)
+    ms = [("whole-head", [(20000, 3), (2, 1)])]
+    if ctx.thorough:
+        ms += [("frac-head", [(20000, 2), (20001, 0)]), ("whole-head", [(20001, 1), (20000, 20001)])]
+    for spat, lens in ms:
+        shape = [_text_input(rng, spat, h, t, True, 7000, 5000, 1) for h, t in lens]
+        out.append(_mk_ms(_with_ids(shape, 10 ** 6), "tsv", 0, dtype="float", phys=ph(names={"score": "mokapot score"}),
+                          extra=["default-chunk-size", "text-typed-stream", f"spat={spat}"], layout="mixed"))
+    tb = [("whole-head", [(1000, 2), (3, 1)], "rows-Dicts", True)]
+    if ctx.thorough:
+        tb += [("whole-head", [(1001, 3), (2000, 1), (1, 0)], "read", False), ("frac-head", [(1000, 1), (1000, 1001)], "rows-Records", True),
+               ("whole", [(1000, 1), (2, 2)], "merge_readers", False)]
+    for spat, lens, via, desc in tb:
+        shape = [_text_input(rng, spat, h, t, desc, 400, 300, 1) for h, t in lens]
+        c = _mk_table(_with_ids(shape, 10 ** 6), desc, via, 1000, ochunk=777, dtype="float", backing="tsv",
+                      extra=["default-chunk-size", "text-typed-stream", f"spat={spat}"],
+                      phys=ph(defaults=["rchunk"] + (["desc"] if desc else [])))
+        c["tags"] += _hdr_tag(c)
+        out.append(c)
     return out
 
 
@@ -1136,7 +1456,12 @@ def gen(ctx):
 
     # (4)-(6) white-box review: the physical side
     cases.extend(_gen_default_chunks(ctx))      # (6) first: the evidence samples the last cases, keep those small
+    cases.extend(_gen_text_default_chunks(ctx))
     physical = _gen_physical(ctx, 5000 if ctx.thorough else 700)
     cases.extend(physical)
     cases.extend(_gen_physical_malformed(ctx, physical, 1500 if ctx.thorough else 250))
+    # (7) round 4: text inputs whose numbers are printed as other tools print them
+    typed = _gen_text_typed(ctx, 2500 if ctx.thorough else 300)
+    cases.extend(typed)
+    cases.extend(_gen_physical_malformed(ctx, typed, 500 if ctx.thorough else 60, label="text-typed-malformed", tag="text-typed-stream"))
     return cases
